@@ -60,6 +60,17 @@ func checkRead(w *world, st map[*xferDir]*dirState, d *xferDir, r *readRec) {
 		}
 	}
 	ds.nOK++
+	if d.flip != nil {
+		// mixed ordering on one stream: the ordered messages (DCEP included) form one sequence
+		if !m.unordered || m.dcep {
+			if idx <= ds.lastIdx {
+				w.violate("C06", "reordered", "%s: ordered message %d (write #%d) delivered after ordered write #%d on a stream with mixed ordering", where, m.id, idx, ds.lastIdx)
+				return
+			}
+			ds.lastIdx = idx
+		}
+		return
+	}
 	if !d.unordered {
 		if idx <= ds.lastIdx {
 			w.violate(prop, "reordered", "%s: message %d (write #%d) delivered after write #%d", where, m.id, idx, ds.lastIdx)
